@@ -40,8 +40,11 @@ def hashCallNode (task args result : Nat) (kids : List H) : H := .call task args
 
 /-! ### The job tree the scheduler built -/
 
-/-- How a job ended. `hit h`: it entered `_resolve_job_main_thread` already carrying call hash `h`
-(CSE / ultimate-reduction cache hit, or a successful `Job.collapse` onto a twin). -/
+/-- How a job ended. `ok` / `fail`: it computed its own call hash (a failed job only when it records
+provenance). `hit h`: it ended — with a value in `_resolve_job_main_thread`, or with an error in
+`_reject_job_main_thread` (`job.was_cached and job.call_hash`) — already carrying call hash `h`:
+a CSE / ultimate-reduction cache hit, or a `Job.collapse` onto a twin (successful or failing). Such a
+job shares the twin's CallNode; nothing is recorded for it but its tags and its Job row. -/
 inductive Fin where
   | ok | fail | hit (h : H) | unfinished
   deriving Repr, Inhabited
@@ -184,7 +187,8 @@ def jobEnd (db : Db) (eid : Nat) (parent : Option Nat) (i : Info) (call : Option
   let db := if db.jobs.any (fun r => r.jid = i.jid) then db else jobStart db eid parent i
   { db with jobs := setEnd db.jobs i.jid call i.cached }
 
-/-- What the end of a job writes: `_resolve_job_main_thread` / `_reject_job_main_thread`. -/
+/-- What the end of a job writes: `_resolve_job_main_thread` / `_reject_job_main_thread`
+(an error served by CSE takes the `hit` branch: tags + `record_job_end`, no new CallNode). -/
 def finishJob (db : Db) (eid : Nat) (parent : Option Nat) : JT → Db
   | .ref _ => db
   | .job i _ _ kids =>
